@@ -385,119 +385,151 @@ func (w *World) checkFilterPosition(r *Report) {
 
 // checkSiblingCounters: the position()/last() closures.
 func (w *World) checkSiblingCounters(r *Report) {
+	// what the function dispatch binds to position() and last(), followed by
+	// constant propagation on a row of N siblings (N = 1..3) with the context
+	// node at every index and every pattern of node-test verdicts: position()
+	// is 1 + the number of earlier siblings passing the step's node test,
+	// last() the number of siblings passing it
 	n := 0
-	// candidates: the closures shared by all clones, and whatever the function
-	// dispatch binds to position() / last() (a closure or a named function)
-	cands := append([]*ssa.Function{}, w.sharedClosures()...)
 	for _, name := range []string{"position", "last"} {
 		for _, tf := range w.funcBindings()[name] {
-			if cl := w.closureOf(tf); cl != nil {
-				dup := false
-				for _, c := range cands {
-					if c == cl {
-						dup = true
-					}
-				}
-				if !dup {
-					cands = append(cands, cl)
-				}
+			cl := w.closureOf(tf)
+			if cl == nil {
+				continue
 			}
-		}
-	}
-	for _, cl := range cands {
-		if len(cl.Params) != 2 || !w.isQueryType(cl.Params[0].Type()) || len(cl.FreeVars) != 0 {
-			continue
-		}
-		// uses parameter 0 through the predicate helper and moves a copy of the context sideways
-		moves := map[string]bool{}
-		usesPred := false
-		var testCall ssa.Value
-		eachInstr(cl, false, func(_ *ssa.Function, in ssa.Instruction) {
-			if c, ok := in.(ssa.CallInstruction); ok {
-				if _, m, class, ok := w.isNavCall(c); ok && class == "move" {
-					moves[m] = true
-				}
-				if f := c.Common().StaticCallee(); f != nil && w.inPkg(f) && len(c.Common().Args) == 1 && c.Common().Args[0] == ssa.Value(cl.Params[0]) && w.isPredicateFuncType(f.Signature.Results().At(0).Type()) {
-					usesPred = true
-					testCall = c.(ssa.Value)
-				}
+			n++
+			r.FuncsAnalysed[fnName(cl)] = true
+			key := fnName(cl)
+			why, decided := w.siblingCounterByInterp(cl, name)
+			switch {
+			case !decided:
+				r.undec("C03-LAST", key, w.pos(cl.Pos()), name+"(): "+why)
+			case why != "":
+				r.bad("C03-LAST", key, w.pos(cl.Pos()), "sibling counter broken: "+why)
+			default:
+				r.ok("C03-LAST", key, w.pos(cl.Pos()), "counts, on a copy of the context, exactly the siblings that pass the step's node test (34 rows of up to three siblings)")
 			}
-		})
-		if len(moves) == 0 || !usesPred {
-			continue
-		}
-		n++
-		r.FuncsAnalysed[fnName(cl)] = true
-		key := fnName(cl)
-		// every increment of the counter is under a true outcome of test(node)
-		okCount := true
-		nInc := 0
-		eachInstr(cl, false, func(_ *ssa.Function, in ssa.Instruction) {
-			bo, ok := in.(*ssa.BinOp)
-			if !ok || bo.Op != token.ADD || !isIntType(bo.Type()) {
-				return
-			}
-			if k, ok := constInt(bo.Y); !ok || k != 1 {
-				return
-			}
-			nInc++
-			guarded := false
-			for _, p := range bo.Block().Preds {
-				if ifi := blockIf(p); ifi != nil && p.Succs[0] == bo.Block() {
-					if c, ok := ifi.Cond.(*ssa.Call); ok && c.Call.Value == testCall {
-						guarded = true
-					}
-				}
-			}
-			if !guarded {
-				okCount = false
-			}
-		})
-		// the node test is applied to every sibling visited: no way round the
-		// counting loop avoids the test call
-		everySibling := true
-		for _, b := range cl.Blocks {
-			for _, in := range b.Instrs {
-				c, ok := in.(*ssa.Call)
-				if !ok || c.Call.Value != testCall {
-					continue
-				}
-				for _, comp := range cfgSCCs(cl) {
-					inComp := map[*ssa.BasicBlock]bool{}
-					for _, cb := range comp {
-						inComp[cb] = true
-					}
-					if !inComp[b] {
-						continue
-					}
-					if residualCycle(comp, inComp, map[*ssa.BasicBlock]bool{b: true}) != nil {
-						everySibling = false
-					}
-				}
-			}
-		}
-		if !everySibling {
-			okCount = false
-		}
-		var ms []string
-		for m := range moves {
-			ms = append(ms, m)
-		}
-		frameOK := true
-		for m := range moves {
-			if m != "MoveToFirst" && m != "MoveToNext" && m != "MoveToPrevious" {
-				frameOK = false
-			}
-		}
-		if okCount && nInc > 0 && frameOK {
-			r.ok("C03-LAST", key, w.pos(cl.Pos()), fmt.Sprintf("counts the siblings (moves %v on a copy) that pass the step's node test", sortedKeys(moves)))
-		} else {
-			r.bad("C03-LAST", key, w.pos(cl.Pos()), fmt.Sprintf("sibling counter broken: counts exactly the siblings passing the step's node test (test applied to every sibling, increment only under it)=%v, increments=%d, moves %v (must stay among siblings)", okCount, nInc, sortedKeys(moves)))
 		}
 	}
 	if n < 2 {
 		r.bad("C03-LAST", "closures", "", fmt.Sprintf("found %d sibling-counting function closures, expected position() and last()", n))
 	}
+}
+
+const (
+	sibPos = 900001
+)
+
+func (w *World) siblingCounterByInterp(cl *ssa.Function, name string) (string, bool) {
+	if len(cl.Params) != 2 {
+		return "not a function of (query, iterator)", false
+	}
+	for N := 1; N <= 3; N++ {
+		for P := 0; P < N; P++ {
+			for pat := 0; pat < 1<<uint(N); pat++ {
+				verdict := func(i int) bool { return pat&(1<<uint(i)) != 0 }
+				want := 0
+				if name == "position" {
+					want = 1
+					for i := 0; i < P; i++ {
+						if verdict(i) {
+							want++
+						}
+					}
+				} else {
+					for i := 0; i < N; i++ {
+						if verdict(i) {
+							want++
+						}
+					}
+				}
+				st := w.initState()
+				ctx := st.newObj(nil, nil)
+				ctx.Extern = true
+				var curs []*AObj
+				movedCtx := false
+				var hooks AHooks
+				hooks.Call = func(ai *AInterp, s2 *AState, site ssa.CallInstruction, callee *ssa.Function, args []AVal) (bool, AVal) {
+					com := site.Common()
+					if com.IsInvoke() && len(args) > 0 {
+						m := com.Method.Name()
+						switch {
+						case args[0].Tag == "iter" && m == "Current":
+							return true, AVal{Kind: avPtr, Obj: ctx, Field: -1, Tag: "ctx"}
+						case args[0].Tag == "ctx" && w.navMethodClass(m) == "copy":
+							c := s2.newObj(nil, nil)
+							c.Fields[sibPos] = aInt(int64(P))
+							curs = append(curs, c)
+							return true, AVal{Kind: avPtr, Obj: c, Field: -1, Tag: "cur"}
+						case args[0].Tag == "ctx" && w.navMethodClass(m) == "move":
+							movedCtx = true
+							return true, aUnknown(nil)
+						case args[0].Tag == "cur" && w.navMethodClass(m) == "move":
+							o := s2.obj(args[0].Obj)
+							k, _ := o.Fields[sibPos].Int()
+							switch m {
+							case "MoveToPrevious":
+								if k > 0 {
+									o.Fields[sibPos] = aInt(k - 1)
+									return true, aBool(true)
+								}
+								return true, aBool(false)
+							case "MoveToNext":
+								if int(k) < N-1 {
+									o.Fields[sibPos] = aInt(k + 1)
+									return true, aBool(true)
+								}
+								return true, aBool(false)
+							case "MoveToFirst":
+								o.Fields[sibPos] = aInt(0)
+								return true, aBool(k != 0)
+							}
+							// leaves the row of siblings
+							o.Fields[sibPos] = aInt(-1000)
+							return true, aUnknown(nil)
+						}
+					}
+					// the node test of the step the function was called for
+					if callee != nil && w.inPkg(callee) && callee.Signature.Recv() == nil && len(args) == 1 && args[0].Tag == "q" && callee.Signature.Results().Len() == 1 && w.isPredicateFuncType(callee.Signature.Results().At(0).Type()) {
+						return true, AVal{Kind: avUnknown, Tag: "test"}
+					}
+					if callee == nil && ai.CallValue.Tag == "test" && len(args) == 1 && args[0].Tag == "cur" {
+						k, _ := s2.obj(args[0].Obj).Fields[sibPos].Int()
+						if k < 0 || int(k) >= N {
+							return true, aUnknown(nil)
+						}
+						return true, aBool(verdict(int(k)))
+					}
+					return false, AVal{}
+				}
+				ai := w.newInterp(hooks)
+				ai.MaxVisits = 8
+				outs := ai.Exec(cl, []AVal{{Kind: avUnknown, Tag: "q"}, {Kind: avUnknown, Tag: "iter"}}, nil, st)
+				if len(outs) == 0 {
+					return "could not be followed", false
+				}
+				for _, o := range outs {
+					if o.Cut {
+						return "a path could not be followed to its end", false
+					}
+					if o.Panicked {
+						return fmt.Sprintf("%s() panics on a row of %d siblings", name, N), true
+					}
+					got, ok := o.Ret.Float()
+					if !ok {
+						return fmt.Sprintf("the result is not a number decided by the node-test verdicts (%s)", o.Ret.String()), false
+					}
+					if movedCtx {
+						return name + "() moves the context cursor itself instead of a copy", true
+					}
+					if int(got) != want || float64(int(got)) != got {
+						return fmt.Sprintf("with %d siblings, the context node at index %d and node-test verdicts %0*b (lowest bit = first sibling) %s() yields %v, XPath: %d (only siblings that pass the step's node test count, and every one of them)", N, P, N, pat, name, got, want), true
+					}
+				}
+			}
+		}
+	}
+	return "", true
 }
 
 // ---------- C12-REV ----------
